@@ -138,6 +138,18 @@ def Statement_csv_text_preserves : Prop :=
     ∃ f : Cell → Cell, (∀ c, cellStr (f c) = csvSpec c) ∧
       csvTextRoundTrip (.select vars rows) = .ok (.select vars (rows.map (fun r => r.map f)))
 
+/-- XML character data: what `SPARQLXMLWriter._characters` / `XMLGenerator.characters` write for a string (`&amp;`
+    `&lt;` `&gt;`, carriage return as `&#13;`) is delivered unchanged by an XML 1.0 parser (references, end-of-line
+    normalisation, the `Char` range, no `]]>`), for every string XML can carry — lexical forms, IRIs, labels. -/
+def Statement_xml_chardata_roundtrip : Prop :=
+  ∀ (s rest : Str), s.all xmlChar = true → xmlReadContent (xmlWriteText s ++ '<' :: rest) = some (s, '<' :: rest)
+
+/-- XML attribute values: what `quoteattr` writes (tab, LF, CR as character references; the quote character chosen by
+    what the value holds, `&quot;` when it holds both) is delivered unchanged after attribute-value normalisation —
+    variable names, datatype IRIs, language tags. -/
+def Statement_xml_attr_roundtrip : Prop :=
+  ∀ (s rest : Str), s.all xmlChar = true → xmlReadAttr (quoteattr s ++ rest) = some (s, rest)
+
 /-! ### Theorems -/
 
 theorem json_text_roundtrip : Statement_json_text_roundtrip := fun ks s rest => jsonScan_jsonSpell ks s rest
@@ -241,6 +253,22 @@ theorem tsv_reader_complete : Statement_tsv_reader_complete := fun chs _ _ h => 
 theorem tsv_old_reader_drops_unbound_rows :
     readTsvOld (render [] [['a'], ['b']] [[none, none], [some (.iri ['x']), some (.iri ['y'])]])
       = .ok (.select [['a'], ['b']] [[some (.iri ['x']), some (.iri ['y'])]]) := by rfl
+
+theorem xml_chardata_roundtrip : Statement_xml_chardata_roundtrip :=
+  fun s rest h => readText_writeText s h 0 rest
+
+theorem xml_attr_roundtrip : Statement_xml_attr_roundtrip := fun s rest h => xmlReadAttr_quoteattr s h rest
+
+/-- known finding C16-K1 at the text level: the writer has no spelling for U+0001, the document is not well-formed -/
+theorem xml_chardata_witness : xmlReadContent (xmlWriteText ['\x01'] ++ ['<']) = none := by decide
+
+/-- without the `&#13;` of `_characters` a carriage return comes back as a line feed (regression anchor of C16-F3) -/
+theorem xml_chardata_raw_cr : xmlReadContent ['a', '\r', 'b', '<'] = some (['a', '\n', 'b'], ['<']) := by decide
+
+/-- the three quoting branches of `quoteattr` -/
+example : quoteattr ['a', '<', '\n'] = "\"a&lt;&#10;\"".toList := by decide
+example : quoteattr ['a', '"'] = "'a\"'".toList := by decide
+example : quoteattr ['\'', '"'] = "\"'&quot;\"".toList := by decide
 
 theorem csv_text_roundtrip : Statement_csv_text_roundtrip := csvParse_csvRender
 
